@@ -22,7 +22,9 @@ RULE = (
     "cases = (number of workers 2-5, 60-400 announced ids with random origin, burst or paced, chunk plan per link in "
     "each direction: aligned 32 | fixed size k for every k in 1..63 (all of them in thorough, a seeded dozen in quick) | "
     "random sizes 1-100 | coalesce 2-8 ids | per-byte dribble; delays; optionally one peer reset mid-id or mid-stream, in the "
-    "server->worker or the worker->server direction (a worker dying while it announces); kinds regular / ephemeral / replaceable). "
+    "server->worker or the worker->server direction (a worker dying while it announces), as end of stream or as a RESET; kinds "
+    "regular / ephemeral / parameterized; a tenth of the events resubmitted to a random worker afterwards). Plus the matrix of "
+    "configurations (gunicorn.workers x purple section x run_notifier) that must start the notifier. "
     "Non-trivial = a case in which at least one link delivered a chunk that is not a multiple of 32 bytes, or a peer was "
     "reset, and ids were announced afterwards. Distinct = distinct (workers, plan per link, reset)."
 )
@@ -32,7 +34,7 @@ ASSUMPTIONS = [
     "after a peer was reset only the surviving workers are judged, and only for ids announced after the reset completed",
 ]
 MIN_NONTRIVIAL = {"quick": 8, "thorough": 40}
-REQUIRED_COUNTERS = ["ids_announced", "deliveries_checked", "pushes_checked", "misaligned_chunks"]
+REQUIRED_COUNTERS = ["ids_announced", "deliveries_checked", "pushes_checked", "misaligned_chunks", "resubmissions", "deployment_configs"]
 SHARD_TIMEOUT = {"quick": 600, "thorough": 3200}
 
 
@@ -47,7 +49,8 @@ def plan(tier, seed):
     for i in range(0, len(plans), per):
         out.append({"plans": plans[i:i + per], "case_seed": seed * 7919 + i, "ids": 80 if tier == "quick" else 300})
     out.append({"plans": [("reset", 40), ("reset-mid-id", 50)], "case_seed": seed * 7919 + 999, "ids": 120})
-    out.append({"plans": [("reset-mid-id-up", 60)], "case_seed": seed * 7919 + 998, "ids": 120})
+    out.append({"plans": [("reset-mid-id-up", 60), ("reset-rst", 40)], "case_seed": seed * 7919 + 998, "ids": 120})
+    out.append({"mode": "deployment", "case_seed": seed, "plans": []})
     return out
 
 
@@ -129,6 +132,11 @@ class Link:
                         self.was_reset = True
                         for w in self.writers:
                             try:
+                                if self.plan[0].endswith("-rst"):
+                                    # a killed process with unread data in its socket: the peer sees a RESET, not an end of stream
+                                    import struct
+
+                                    w.get_extra_info("socket").setsockopt(socket.SOL_SOCKET, socket.SO_LINGER, struct.pack("ii", 1, 0))
                                 w.transport.abort()
                             except Exception:
                                 pass
@@ -253,6 +261,7 @@ async def run_case(nworkers, plan_, nids, counters, seed):
         key = ref.key_from_seed("c20")
         pubs = [rig.connect("pub%d" % w, storage=st) for w, st in enumerate(storages)]
         produced = []  # (id, origin, after_reset)
+        sent_events = {}
         burst = r.random() < 0.5
         for i in range(nids):
             origin = r.randrange(nworkers)
@@ -270,8 +279,18 @@ async def run_case(nworkers, plan_, nids, counters, seed):
                 viols.append({"key": "announcing-worker-refused-event", "msg": "worker %d answered %s to a valid EVENT (after earlier notifier trouble?)" % (origin, oks[-1][1][2:] if oks else None),
                               "replay": {"workers": nworkers, "plan": list(plan_), "ids": nids, "seed": seed}})
             produced.append((ev["id"], origin, after, kind))
+            sent_events[ev["id"]] = ev
             if not burst or i % 17 == 0:
                 await asyncio.sleep(0.001)
+        # resubmissions: a stored event sent again (to the same or to another worker) is a duplicate
+        # everywhere - nobody is told about it a second time
+        for eid_, origin_, after_, kind_ in r.sample(produced, min(len(produced), max(4, len(produced) // 10))):
+            if kind_ != 1 or (reset_worker is not None):
+                continue
+            ev_ = sent_events[eid_]
+            target = r.randrange(nworkers)
+            await pubs[target].cmd(["EVENT", ev_])
+            counters["resubmissions"] = counters.get("resubmissions", 0) + 1
         # drain
         for _ in range(400):
             await asyncio.sleep(0.01)
@@ -338,6 +357,44 @@ async def run_case(nworkers, plan_, nids, counters, seed):
     return viols, nontrivial
 
 
+async def run_deployment(counters):
+    """which configurations start the cross-worker notifier at all: more than one gunicorn worker, or
+    run_notifier, must - whatever other server sections the configuration file also carries"""
+    viols, nontrivial = [], []
+    for gw in (None, 1, 2, 4):
+        for purple in (None, {}, {"workers": 1}, {"workers": 3}, {"host": "127.0.0.1"}):
+            for rn in (None, False, True):
+                cfg = {"analysis_delay": 0}
+                if gw is not None:
+                    cfg["gunicorn"] = {"workers": gw}
+                if purple is not None:
+                    cfg["purple"] = purple
+                if rn is not None:
+                    cfg["run_notifier"] = rn
+                rig = R.Rig(backend="sql", config=cfg)
+                rig.load_config()
+                from nostr_relay import notifier
+
+                if not isinstance(notifier.asyncio, R._AsyncioProxy):
+                    notifier.asyncio = R._AsyncioProxy(asyncio)
+                await rig.start()
+                try:
+                    must = bool((gw or 1) > 1 or rn)
+                    has = rig.storage.notifier is not None
+                    counters["deployment_configs"] = counters.get("deployment_configs", 0) + 1
+                    if must:
+                        nontrivial.append(h(["deployment", gw, purple, rn]))
+                    if must and not has:
+                        viols.append({"key": "notifier-not-started/%s" % ("purple-section-present" if purple is not None else "plain"),
+                                      "msg": "configuration gunicorn.workers=%r purple=%r run_notifier=%r: the storage started no notifier client, so nothing an accepting worker stores reaches the others"
+                                             % (gw, purple, rn), "replay": {"mode": "deployment"}})
+                finally:
+                    if rig.storage.notifier is not None and getattr(rig.storage.notifier, "_task", None):
+                        rig.storage.notifier._task.cancel()
+                    await rig.close()
+    return viols, nontrivial
+
+
 def kclass(kind):
     return "" if kind == 1 else ("/ephemeral-kind" if 20000 <= kind < 30000 else "/replaceable-kind")
 
@@ -346,6 +403,10 @@ def run_shard(spec):
     counters = {}
     viols, nontrivial, samples = [], [], []
     r = random.Random(spec["case_seed"])
+    if spec.get("mode") == "deployment":
+        viols, nontrivial = R.run(run_deployment, counters)
+        return {"evaluations": counters.get("deployment_configs", 0), "nontrivial": sorted(set(nontrivial)), "counters": counters, "coverage": {"plans": {"deployment-matrix": 1}},
+                "violations": viols[:3], "samples": [], "inconclusive": []}
     for i, pl in enumerate(spec["plans"]):
         nworkers = r.randint(2, 5) if not pl[0].startswith("reset") else 3
         try:
@@ -367,5 +428,8 @@ def run_shard(spec):
 
 def replay(rp, spec):
     counters = {}
+    if rp.get("mode") == "deployment":
+        v, nt = R.run(run_deployment, counters)
+        return {"evaluations": 1, "nontrivial": nt, "counters": counters, "violations": v, "samples": [], "inconclusive": []}
     v, nt = R.run(run_case, rp["workers"], tuple(rp["plan"]), rp["ids"], counters, rp["seed"])
     return {"evaluations": 1, "nontrivial": nt, "counters": counters, "violations": v, "samples": [], "inconclusive": []}
